@@ -54,6 +54,7 @@ THEOREMS = [
     "Mpc.C03_fuel_irrelevant_raw",
     "Mpc.C03_shipped_vectors",
     "Mpc.C03_finding_witnesses",
+    "Mpc.C03_repaired_witnesses",
 ]
 
 # sig of an unexplained disagreement
@@ -174,7 +175,10 @@ def run(ctx):
                 "feat_return_in_loop", "feat_struct", "feat_assign_element", "feat_assign_field", "feat_multi_define",
                 "feat_call_in_expr", "feat_callee_reuses_caller_names", "feat_index_variable", "feat_named_results",
                 "feat_if_else_both_return", "feat_else_if", "feat_cmp_signed_lt", "feat_cmp_unsigned_ge",
-                "programs_exhaustive"]
+                "programs_exhaustive",
+                # shapes repaired in /repo (4accfb7, 3c18dfa, dfc60cc, 86f919b): ordinary cases now
+                "feat_shape_lit_signed_narrow", "feat_shape_const_cast_shared", "feat_shape_const_left_unsigned",
+                "feat_shape_named_result_zero"]
         missing = [k for k in need if c.get(k, 0) == 0]
         ctx.oblige("generator reached every listed language feature (%d features)" % len(need), not missing,
                    "never generated: %s" % missing)
@@ -188,7 +192,7 @@ def run(ctx):
         "steps +-1..3, nested, return inside loops); 45% of the programs have <= 12 (thorough: <= 14/16) input bits "
         "and are evaluated on ALL inputs (per-program claim complete), the others on 24/48 boundary-biased tuples "
         "(0, 1, -1, min, max, min+1, -2, 0x55.., small, random per scalar component); distinct = distinct program "
-        "S-expressions; 10% of the programs are probes of the 6 known deviations (tagged, matched narrowly)")
+        "S-expressions; ~5% of the programs are probes of the remaining known deviations (inner-block redeclaration, int->wider uint cast, signed widening of a top-bit-set constant; tagged, matched narrowly); the shapes repaired in /repo (untyped literal vs narrow signed operand, constant conversion sharing `$n`, constant on the left of an unsigned comparison, named result read before assignment) occur in ordinary programs and must agree")
     ctx.assumptions += [
         "the reference semantics is the Lean interpreter Model/Mpcl.lean: Go-like block scoping, wrapping arithmetic, signed / "
         "truncating, signed % = |a| mod |b| (testsuite/lang/modi.mpcl), casts sign-extend a signed source; theorems in "
